@@ -261,6 +261,7 @@ class Interp:
         self.no_inline = set(no_inline)         # short quals never inlined
         self._assign_trackers = []
         self.asserted_domains = {}
+        self.deref_syms = set()
         self._with_hooks = {}
         self._with_fired = set()
         self._plain_loops = set()
@@ -1188,7 +1189,39 @@ class Interp:
             return None
         return fi
 
+    def _try_as_lookup(self, st, fr):
+        """try: x = D[k]  except KeyError: H   with D a literal dictionary of text keys  ==  if k is none of the keys: H
+        else: x = D[k].   Returns (missing condition) or None."""
+        if len(st.body) != 1 or st.orelse or st.finalbody or len(st.handlers) != 1:
+            return None
+        b, h = st.body[0], st.handlers[0]
+        if not (isinstance(b, ast.Assign) and isinstance(b.value, ast.Subscript) and len(b.targets) == 1):
+            return None
+        types = ast.unparse(h.type) if h.type is not None else ''
+        if 'KeyError' not in types or h.name:
+            return None
+        rec, self.record = self.record, False
+        try:
+            d = self.ev(b.value.value, fr)
+            k = self.ev(b.value.slice, fr)
+        finally:
+            self.record = rec
+        da = d.single_atom()
+        if da is None or da.kind != 'dict' or not da.args or not all(
+                kk.single_atom() is not None and kk.single_atom().kind == 'str' for kk, _ in da.args):
+            return None
+        return T.mk_and([T.mk_not(T.mk_cmp('==', k, kk)) for kk, _ in da.args])
+
     def st_Try(self, st, fr):
+        missing = self._try_as_lookup(st, fr)
+        if missing is not None:
+            if missing.key == FALSE.key:
+                return self.exec_block(st.body, fr)
+            if missing.key == TRUE.key:
+                return self.exec_block(st.handlers[0].body, fr)
+            then = self._branch(fr, missing, st.handlers[0].body)
+            other = self._branch(fr, T.mk_not(missing), st.body)
+            return self._join(fr, missing, then, other)
         tid = f'T{st.lineno}'
         env0, heap0 = dict(fr.env), dict(self.heap)
         old = self.tryctx
